@@ -238,7 +238,7 @@ func (o *outcome) count(name string, n int) {
 type worker struct {
 	node *nodeOracle
 	sets []*subjects
-	rng  *ev.Rand
+	rng  func(pattern string) *ev.Rand // per-pattern stream: independent of scheduling
 }
 
 var genAlphabet = append(append([]rune(nil), coreAlphabet...), extraAlphabet...)
@@ -411,7 +411,7 @@ func (w *worker) decide(it item, narrate bool) *outcome {
 	// subjects: common set + extras (+ derived from the AST)
 	extra := append([]string(nil), it.extra...)
 	if it.gen && prog != nil {
-		rng := w.rng.Fork(p)
+		rng := w.rng(p)
 		for i := 0; i < 24; i++ {
 			g := prog.Gen(rng.Intn, genAlphabet)
 			extra = append(extra, g, mutate(rng, g))
@@ -850,7 +850,7 @@ func run(r *ev.Run, items []item, sets []*subjects, script string) {
 	pool := make(chan *worker, W)
 	nodes := 0
 	for k := 0; k < W; k++ {
-		w := &worker{sets: sets, rng: r.Rand("derive")}
+		w := &worker{sets: sets, rng: func(p string) *ev.Rand { return r.Rand("derive", p) }}
 		if script != "" {
 			n, err := startNode(script, setStrs)
 			if err != nil {
@@ -909,7 +909,7 @@ func Main(args []string) int {
 			fmt.Println("ERROR", err)
 			return 2
 		}
-		wk := &worker{rng: r.Rand("derive")}
+		wk := &worker{rng: func(p string) *ev.Rand { return r.Rand("derive", p) }}
 		if script != "" {
 			if n, err := startNode(script, nil); err == nil {
 				wk.node = n
